@@ -156,6 +156,7 @@ def _run_option_methods(ctx) -> Tuple[Dict[str, List[dict]], Dict[str, str]]:
         why = ""
         for args, kw in _option_variants(f):
             me = Inst(cls, {"propagate_to_loaders": True}, label="Load")
+            me.model = True
 
             def rec(attrs, strategy_key, wildcard_key, opts=None, attr_group=None, propagate_to_loaders=True,
                     reconcile_to_other=None, extra_criteria=None, _calls=calls, _kw=kw):
@@ -782,6 +783,7 @@ def r4(ctx):
 
     def scenario(column, group=None, local_opts=None, only_load_props=None, has_option=True, class_level=True):
         mapper = Inst(mapper_cls, {"primary_key": (pk,), "polymorphic_on": disc})
+        mapper.model = True
         calls = []
         delegate = Inst(None, {}, label="plain-loader")
         delegate.stubs["setup_query"] = lambda *a, **k: calls.append(("setup_query", a, k))
@@ -789,6 +791,7 @@ def r4(ctx):
         prop.stubs["_get_strategy"] = lambda key: (calls.append(("get", key)) or delegate)
         me = Inst(deferred_cls, {"columns": [column], "group": group, "parent": mapper, "parent_property": prop,
                                   "key": "x", "is_class_level": class_level, "raiseload": False})
+        me.model = True
         cs = Inst(None, {"compile_options": Inst(None, {"_render_for_subquery": False})}, label="compile_state")
         opt = Inst(None, {"local_opts": dict(local_opts or {})}, label="loadopt") if has_option else None
         memo: Dict[Any, Any] = {}
@@ -846,6 +849,7 @@ def r4(ctx):
     cs.stubs["_append_dedupe_col_collection"] = lambda c, coll: added.append(c)
     prop = Inst(None, {"key": "x"}, label="prop")
     me = Inst(plain_cls, {"columns": [c1, c2], "parent_property": prop, "key": "x"})
+    me.model = True
     memo = {}
     try:
         L.call_method(me, "setup_query", cs, Inst(None, {}), Inst(None, {}), None, None, [], memo)
